@@ -31,7 +31,7 @@ if a.returncode == 0:
     out["suite"] = t.stdout.strip()
     fired = {}
     for pid in ["C01", "C03", "C04", "C05", "C06", "C08", "C09", "C10", "C11",
-                "C12", "C13", "C14", "C15", "C16", "C17", "C18", "C19", "C20", "C02"]:
+                "C12", "C13", "C14", "C15", "C16", "C17", "C18", "C19", "C20", "C02", "C07"]:
         c = sh(f"cd /verif && SA_NO_EVIDENCE=1 /venv/bin/python -m sa check {pid} --root {wt}")
         if c.returncode != 0:
             rules = sorted({l.split("rule=")[1].split()[0] for l in c.stdout.splitlines()
